@@ -164,7 +164,7 @@ func helperSuccessFacts(a Atom, depth int) []Atom {
 	if call == nil {
 		return nil
 	}
-	g := transparentCallee(call)
+	g := newHelperCallee(call)
 	if g == nil {
 		return nil
 	}
@@ -235,4 +235,50 @@ func eachInstrDeep(fn *ssa.Function, f func(ssa.Instruction)) {
 	for _, h := range helpersOf(fn) {
 		eachInstr(h, f)
 	}
+}
+
+// liftTo: the instruction of root that stands for instr — instr itself when it is in root (or a closure of it),
+// else the call site (in root) of the chain of transparent helpers that contains instr; nil if there is none.
+func liftTo(root *ssa.Function, instr ssa.Instruction) ssa.Instruction {
+	for d := 0; d < 6 && instr != nil; d++ {
+		f := instr.Parent()
+		if f == root {
+			return instr
+		}
+		top := f
+		for top.Parent() != nil {
+			top = top.Parent()
+		}
+		if top == root {
+			return nil // inside a closure of root: no position in root's own CFG
+		}
+		site := transparentSite(top)
+		if site == nil || top != f {
+			return nil
+		}
+		instr = site
+	}
+	return nil
+}
+
+// domLift: block blk of root dominates (the lifted position of) instr.
+func domLift(root *ssa.Function, blk *ssa.BasicBlock, instr ssa.Instruction) bool {
+	li := liftTo(root, instr)
+	if li == nil || blk == nil {
+		return false
+	}
+	return blk == li.Block() || blk.Dominates(li.Block())
+}
+
+// inCodeOf: fn is root, or a new helper reached (only) from root's code.
+func inCodeOf(root, fn *ssa.Function) bool {
+	if fn == root {
+		return true
+	}
+	for _, h := range helpersOf(root) {
+		if h == fn {
+			return true
+		}
+	}
+	return false
 }
